@@ -120,7 +120,8 @@ def apply_variant(prog: Program, v: Variant):
 
 
 def reset_caches() -> None:
-    from .rules import common, bounds, gameplay
+    from .rules import common, bounds, gameplay, hygiene
+    hygiene._SCOPE_CACHE.clear()
     common._FT_CACHE.clear()
     bounds._COMP_CACHE.clear()
     gameplay._LAZY_FUNCS.clear()
